@@ -15,7 +15,9 @@ Rows are matched BY LABEL (labels are known from the workload builder, not from 
 """
 import warnings
 
-from .. import gen, zoo
+import numpy as np
+
+from .. import gen, mon, zoo
 from . import c04_common as cc
 
 LEVEL = "exploration"
@@ -46,6 +48,10 @@ NANS = ("none", "s", "f", "sf")
 DEDICATED = ("EOF", "POP|pca=1", "EOFRotator|base=EOF|power=2", "CPCCA|alpha=0.5,0.5|pca=1", "MCARotator|base=MCA|pca=0|power=1", "ComplexMCA|pca=1")
 
 
+def setup(tier):
+    mon.install_decomposer()  # back-end invocation events (which SVD routine ran) for the non-exact family
+
+
 def required(tier):
     cells = [f"called:{c['cell']}" for c in cc.CONFIGS]
     cells += [f"compared:{c['cell']}" for c in cc.CONFIGS if c["cls"] != "multi.CCA"]
@@ -54,6 +60,7 @@ def required(tier):
     cells += [f"nan:{k}" for k in NANS]
     cells += ["normalized:True", "normalized:False", "cplx_input:True", "cplx_input:False", "shape:wide", "shape:tall"]
     cells += ["stacked_layout+missing_samples", "op:transform_X_only", "op:transform_Y_only"]
+    cells += ["history:after_accessor_history", "history:model_under_rotator", "cplx_nonexact:ComplexEOF", "cplx_nonexact:ComplexEOFRotator", "cplx_nonexact_backend:svds"]
     return {"mon": ["value_comparisons"], "cover": cells}
 
 
@@ -78,6 +85,11 @@ def cases(tier, seed):
     # still be exactly what transform() computes (both project the preprocessed views on the same weights)
     for j in range(2 if tier == "quick" else 6):
         out.append(dict(kind="multi_big", cls="multi.CCA", cell="multi.CCA|pca=big", dseed=4400 + j, n=int(90 + 10 * j), ps=[48 + j, 45 - j]))
+    # complex input on the non-exact back-end (scipy svds): scores are U*s, transform() is X V -- the triplets
+    # have to stay paired through the back-end's own re-ordering
+    for j in range(8 if tier == "quick" else 60):
+        out.append(dict(kind="cplx_nonexact", cls=("ComplexEOF", "ComplexEOFRotator")[j % 4 == 3], cell="ComplexEOF|nonexact", solver=("randomized", "auto")[j % 2],
+                        dseed=4500 + j if j < 8 else int(gen.rng_for(seed, 45, j).integers(0, 2**31 - 1))))
     nrand = 300 if tier == "quick" else 9000
     fams = list(FAMILY_P)
     pf = [FAMILY_P[k] for k in fams]
@@ -121,9 +133,50 @@ def _run_multi_big(case, obs):
     obs.cell(f"compared:{case['cell']}")
 
 
+def _run_cplx_nonexact(case, obs):
+    import xarray as xr
+    import xeofs as xe
+
+    rng = gen.rng_for(case["dseed"], 46)
+    n, p = int(rng.integers(30, 80)), int(rng.integers(12, 30))
+    k = int(rng.choice([2, 3, 4, 5]))
+    r = min(n - 1, p)
+    M, _, _ = gen.low_rank(n, p, 0.6 ** np.arange(r) * 5, rng, cplx=True, perp_ones=True)
+    M = M * np.sqrt(n) * 10.0 ** int(rng.integers(-3, 4))
+    X = xr.DataArray(M, dims=("time", "x"), coords={"time": np.arange(n) * 2, "x": np.arange(p) + 0.5})
+    obs.tag(cls=case["cls"], op="transform", solver=case["solver"], cplx_input=True)
+    obs.cell("cplx_nonexact:" + case["cls"], f"solver:{case['solver']}", f"called:{case['cell']}")
+    mon.reset()
+    with warnings.catch_warnings():
+        warnings.simplefilter("ignore")
+        m = xe.single.ComplexEOF(n_modes=k, solver=case["solver"], random_state=int(case["dseed"] % 1000)).fit(X, dim="time")
+        if case["cls"] == "ComplexEOFRotator":
+            try:
+                m = xe.single.ComplexEOFRotator(n_modes=k, max_iter=5000).fit(m)
+            except RuntimeError as e:
+                if "did not converge" in str(e):
+                    obs.refuse(f"fit refused: {e}")
+                raise
+        ev = mon.drain(obs)
+        backends = sorted({e["backend"] for e in ev if e.get("kind") == "backend"})
+        obs.note("backends", backends)
+        for b in backends:
+            obs.cell("cplx_nonexact_backend:" + b)
+        for normalized in (False, True):
+            S = np.asarray(m.scores(normalized=normalized).transpose("mode", "time").values)
+            T = np.asarray(m.transform(X, normalized=normalized).transpose("mode", "time").values)
+            obs.close(f"transform_eq_scores[normalized={normalized}]", T, S, 1e-6, scale=float(np.abs(S).max()) or 1.0,
+                      tags={"symptom": "transform_ne_scores", "call": "transform", "container": "da1"})
+            obs.count("value_comparisons")
+    obs.nontrivial = True
+    obs.cell(f"compared:{case['cell']}")
+
+
 def run_case(case, obs):
     if case.get("kind") == "multi_big":
         return _run_multi_big(case, obs)
+    if case.get("kind") == "cplx_nonexact":
+        return _run_cplx_nonexact(case, obs)
     obs.tag(cls=case["cls"], op="transform")
     etags = {"nan_samples": bool(case["ns_nan"]), "stacked_samples": bool(case["layout"] in cc.STACKED)}  # delimit exceptions
     obs.cell(f"layout:{case['layout']}", f"nan:{case['nan']}", f"cplx_input:{case['cplx']}", "shape:wide" if case["wide"] else "shape:tall")
@@ -208,6 +261,27 @@ def run_case(case, obs):
                     compared += 1
                     if w.shape[1] >= 2 and int(valid.sum()) >= 3:
                         obs.nontrivial = True
+    # hostile histories: (a) every accessor above has been called with both switches -- the plain relation must
+    # still hold; (b) the model underneath a rotator is a fitted model too, and fitting the rotator is history
+    later = [("after_accessor_history", fitted)]
+    if getattr(fitted, "base", None) is not None:
+        later.append(("model_under_rotator", fitted.base))
+    for label, fobj in later:
+        kw = {} if fobj.kind == "multi" else {"normalized": False}
+        ctx = {"normalized": kw.get("normalized"), "history": label}
+        S = cc.guarded(obs, "scores", lambda: fobj.scores(**kw), tags=dict(etags, op="scores", history=label), ctx=ctx)
+        T = cc.guarded(obs, "transform", lambda: fobj.transform(*tr["fields"], **kw), tags=dict(etags, history=label), ctx=ctx)
+        if S is None or T is None or len(S) != nfld or len(T) != nfld:
+            continue
+        obs.cell("history:" + label)
+        for i, (s_, t_) in enumerate(zip(S, T)):
+            w, wm = cc.lay_on_rows(obs, "scores", s_, sdims, keys, valid, {}, ctx=dict(ctx, field=i))
+            if w is None:
+                continue
+            cc.compare(
+                obs, "transform", t_, sdims, keys, w, valid, wm, tol, {}, "transform_ne_scores", "sample_labels",
+                ctx=dict(ctx, call=label, field=i, container=case["fields"][i]["kind"]), vtags=dict(cc.field_tags(case, i), call="transform", history=label, container=case["fields"][i]["kind"]), classify=True,
+            )
     if compared:
         obs.cell(f"compared:{case['cell']}")
     obs.note("compared", compared)
